@@ -362,6 +362,11 @@ func c01alphabet() []Choice {
 		Choice{Label: "[award(k3),burn(k1),send]", Block: chain.Block{Events: []chain.Event{
 			{Kind: "award", Who: 3, Amount: 50}, {Kind: "burn", Who: 1, Sev: "0.25"},
 			{Kind: "tx", Tx: &chain.TxSpec{Msg: "send", From: 3, To: 4, Amount: 17}}}}},
+		// several queued awards for addresses without an account (minted in one BeginBlock: the order
+		// in which the accounts are created and the queue entries removed shapes two IAVL trees)
+		Choice{Label: "[award(k9..k14 fresh)]", Block: chain.Block{Events: []chain.Event{
+			{Kind: "award", Who: 9, Amount: 4}, {Kind: "award", Who: 10, Amount: 5}, {Kind: "award", Who: 11, Amount: 6},
+			{Kind: "award", Who: 12, Amount: 7}, {Kind: "award", Who: 13, Amount: 8}, {Kind: "award", Who: 14, Amount: 9}}}},
 	)
 	return cs
 }
